@@ -1469,12 +1469,21 @@ class Interp:
 
     def ev_Yield(self, node, env):
         log = env.lookup("__yield__")
+        if not log.concrete:
+            raise Unsupported("yield after `yield from <symbolic list>`")
         log.items.append(self.eval(node.value, env) if node.value is not None else NONE)
         return NONE
 
     def ev_YieldFrom(self, node, env):
         log = env.lookup("__yield__")
         v = self.need(self.eval(node.value, env))
+        if isinstance(v, VList) and not v.concrete and log.concrete and not log.items:
+            # nothing yielded so far and the whole of a symbolic list is delegated to: what the generator yields is that
+            # list (a snapshot: later changes of the source are not seen by the consumer of the finished log)
+            log.items, log.shape, log.arrs, log.length = None, v.shape, list(v.arrs), v.length
+            return NONE
+        if not log.concrete:
+            raise Unsupported("yield from after `yield from <symbolic list>`")
         log.items.extend(self.concrete_items(v, node))
         return NONE
 
